@@ -13,7 +13,9 @@ level("C01",
             "SAMPLED, not proved: that the Lean model Pos.apply behaves like the Go function (about 2.7e5 (position, move) pairs per quick run incl. "
             "malformed moves, compared on ok/err and the full successor dump; the spec oracle smove is compared beside it). "
             "NOT covered by a theorem: that the squares of FromSquares' result are the input squares (checked by the rebuild op only), "
-            "the automatic validity of StackLimit for default piece counts on sizes <= 6, the engine's pass move (outside the claim)."),
+            "the engine's pass move (outside the claim). StackLimit is discharged where the game has <= 64 pieces: step_budget (pieces on board + in reserve "
+            "never increase), stack_limit_of_budget, reachable_default (default 3x3..6x6 games, 62 pieces: no stack-limit hypothesis at all); on 7x7/8x8 and "
+            "custom counts it stays an explicit hypothesis."),
       note=("Hypothesis AnalyzeTotal (forall p, p.analyze != none: flood fuel suffices) is taken as an explicit hypothesis of move_never_hangs/"
             "move_refines/reachable_wf; it is proved unconditionally as Roads.analyze_ne_none in the C02 work package (Proofs/Groups.lean) and is to be "
             "discharged when the branches are merged. StackLimit p m is stated on the rule-book side: if Spec.step accepts, no stack of its "
